@@ -211,7 +211,7 @@ def update_linear(check, proj):
         try:
             ai, outs = run_step(proj, c, 2)
         except AnalysisError as e:
-            check.undecided("UPDATE-LINEAR", q, "abstract interpretation failed: %s" % e, stepf.loc())
+            check.failed("UPDATE-LINEAR", q, e, stepf.loc(), "abstract interpretation failed")
             continue
         okc = True
         why = ""
